@@ -45,8 +45,9 @@ ARG_LOCAL = {
 
 
 def shapes():
-    """all 55 (kind, mask) shapes: required arguments present, every subset of optional ones"""
-    out = [("entity", ()), ("agent", ())]
+    """all (kind, mask) shapes: required arguments present, every subset of optional ones
+    (55 for the 18 record kinds, + the convenience factories collection / revision / quotation / primary_source)"""
+    out = [("entity", ()), ("agent", ()), ("collection", ())]
     for m in itertools.product((None, "t1"), (None, "t3")):
         out.append(("activity", m))
     for kind, (tname, formals) in RELATIONS.items():
@@ -60,7 +61,7 @@ def shapes():
 def shape_ops(scope, spelling, urikey, kind, mask, idmode, local_id="r1"):
     def nm(local):
         return (urikey, local, spelling)
-    if kind in ("entity", "agent"):
+    if kind in ("entity", "agent", "collection"):
         return ("el", scope, kind, nm(local_id))
     if kind == "activity":
         return ("el", scope, kind, nm(local_id), mask)
